@@ -53,11 +53,26 @@ def generate(o):
                 out[n.targets[0].id] = ast.literal_eval(n.value.body)
         return [out["precision"], out["scale"]]
 
+    def shared_context(fn):
+        """`context = <NAME>` inside the factory's `__call__` where <NAME> is a module-level `decimal.Context(...)`:
+        -> (the module-level Context call, the expression assigned to `context.prec` in the call) or None."""
+        names = [n for n in ast.walk(fn) if isinstance(n, ast.Assign) and len(n.targets) == 1 and ast.unparse(n.targets[0]) == "context"
+                 and isinstance(n.value, ast.Name)]
+        if len(names) != 1:
+            return None
+        mod = [n for n in tl.tree.body if isinstance(n, ast.Assign) and len(n.targets) == 1 and isinstance(n.targets[0], ast.Name)
+               and n.targets[0].id == names[0].value.id and isinstance(n.value, ast.Call) and ast.unparse(n.value.func) == "decimal.Context"]
+        precs = [n for n in ast.walk(fn) if isinstance(n, ast.Assign) and len(n.targets) == 1 and ast.unparse(n.targets[0]) == "context.prec"]
+        if len(mod) != 1 or len(precs) != 1:
+            return None
+        return mod[0].value, precs[0].value
+
     def factory():
         fn = tl.func("__call__", "DecimalFactory")
         mins = []
         rounding = None
-        for n in ast.walk(fn):
+        sh = shared_context(fn)
+        for n in list(ast.walk(fn)) + (list(ast.walk(sh[0])) if sh else []):
             if isinstance(n, ast.Call) and getattr(n.func, "id", None) == "min" and ast.unparse(n.args[0]) == "self.scale":
                 mins.append((n.lineno, ast.literal_eval(n.args[1])))
             if isinstance(n, ast.keyword) and n.arg == "rounding":
@@ -96,16 +111,22 @@ def generate(o):
         if len(guard) != 1 or ast.unparse(guard[0].test) != "isinstance(value, str) and value.isdigit()":
             raise KeyError("padding guard")
         ctx = [n for n in ast.walk(fn) if isinstance(n, ast.Call) and ast.unparse(n.func) == "decimal.Context"]
-        if len(ctx) != 1:
-            raise KeyError("decimal.Context(...)")
-        kw = {k.arg: k.value for k in ctx[0].keywords}
-        prec = to_lean(kw["prec"], env)
+        scope = "call"
+        if len(ctx) == 1:
+            kw = {k.arg: k.value for k in ctx[0].keywords}
+            prec = to_lean(kw["prec"], env)
+        else:
+            sh = shared_context(fn)  # one module-level context whose precision is set per call
+            if len(ctx) != 0 or sh is None:
+                raise KeyError("decimal.Context(...)")
+            prec = to_lean(sh[1], env)
+            scope = "module"
         cd = [n for n in ast.walk(fn) if isinstance(n, ast.Call) and isinstance(n.func, ast.Attribute) and n.func.attr == "create_decimal"]
         if len(cd) != 1 or ast.unparse(cd[0].func.value) != "context":
             raise KeyError("context.create_decimal(value)")
         if "context" not in {k.arg for k in q[0].keywords} or ast.unparse({k.arg: k.value for k in q[0].keywords}["context"]) != "context":
             raise KeyError("quantize(..., context=context)")
-        return [quant_scale, quant_exp, pad, prec]
+        return [quant_scale, quant_exp, pad, prec, scope]
 
     def limit_exprs():
         """`if length:` and the `[:stop]` slice of parse_varchar / parse_bytes."""
@@ -223,6 +244,77 @@ def generate(o):
             raise KeyError("fold %s" % e.left.func.attr)
         return e.left.func.attr
 
+    def conv_body(fname):
+        """`parse_integer` / `parse_double`: `[if <test>: x = <fn>(x)]* return <fn>(x)` — the conversions applied to the
+        argument before the final one (none today), and the final one."""
+        def g():
+            fn = ty.func(fname)
+            arg = fn.args.args[0].arg
+            body = [st for st in fn.body if not (isinstance(st, ast.Expr) and isinstance(st.value, ast.Constant))]
+            if not body or not isinstance(body[-1], ast.Return):
+                raise KeyError("return <fn>(x)")
+
+            def call_on_arg(e):
+                if isinstance(e, ast.Call) and isinstance(e.func, ast.Name) and len(e.args) == 1 and not e.keywords \
+                        and isinstance(e.args[0], ast.Name) and e.args[0].id == arg:
+                    return e.func.id
+                raise KeyError("<fn>(%s)" % arg)
+
+            final = call_on_arg(body[-1].value)
+            pre = []
+            for st in body[:-1]:
+                if isinstance(st, ast.If) and not st.orelse and len(st.body) == 1 and isinstance(st.body[0], ast.Assign) \
+                        and len(st.body[0].targets) == 1 and isinstance(st.body[0].targets[0], ast.Name) and st.body[0].targets[0].id == arg:
+                    pre.append([ast.unparse(st.test).replace(arg, "x"), call_on_arg(st.body[0].value)])
+                elif isinstance(st, ast.Assign) and len(st.targets) == 1 and isinstance(st.targets[0], ast.Name) and st.targets[0].id == arg:
+                    pre.append(["True", call_on_arg(st.value)])
+                else:
+                    raise KeyError("statement before the return")
+            return [pre, final]
+        return g
+
+    def array_decode():
+        """parse_array: `if not isinstance(x, (<native>)): x = <loader>(x)`."""
+        fn = ty.func("parse_array")
+        arg = fn.args.args[0].arg
+        ifs = [n for n in fn.body if isinstance(n, ast.If) and isinstance(n.test, ast.UnaryOp) and isinstance(n.test.op, ast.Not)
+               and isinstance(n.test.operand, ast.Call) and ast.unparse(n.test.operand.func) == "isinstance"]
+        if len(ifs) != 1 or ifs[0].orelse or len(ifs[0].body) != 1:
+            raise KeyError("if not isinstance(x, ...): x = loader(x)")
+        call = ifs[0].test.operand
+        if ast.unparse(call.args[0]) != arg or not isinstance(call.args[1], ast.Tuple):
+            raise KeyError("isinstance(x, (...))")
+        native = [ast.unparse(e) for e in call.args[1].elts]
+        st = ifs[0].body[0]
+        if not (isinstance(st, ast.Assign) and ast.unparse(st.targets[0]) == arg and isinstance(st.value, ast.Call)
+                and [ast.unparse(a) for a in st.value.args] == [arg] and not st.value.keywords):
+            raise KeyError("x = loader(x)")
+        return [native, ast.unparse(st.value.func)]
+
+    def default_cast():
+        """FlatColumn.__init__/__post_init__: `if <guard on self.default>: ... self.default = self.type.parse(self.default)`."""
+        sc = Src("orso/schema.py")
+        hits = []
+        for n in ast.walk(sc.tree):
+            if isinstance(n, ast.If):
+                for st in ast.walk(ast.Module(body=n.body, type_ignores=[])):
+                    if isinstance(st, ast.Assign) and ast.unparse(st.targets[0]) == "self.default" and isinstance(st.value, ast.Call) \
+                            and ast.unparse(st.value.func).endswith(".parse"):
+                        hits.append((n, st))
+        hits = [(n, st) for (n, st) in hits if "self.default" in ast.unparse(n.test)]
+        if len(hits) != 1:
+            raise KeyError("if <self.default>: self.default = self.type.parse(self.default)")
+        n, st = hits[0]
+        env = {"self.default": "truthy", "self.default is not None": "(¬ isNone)", "self.default is None": "isNone"}
+        for c in ast.walk(n.test):
+            if isinstance(c, ast.Call) and ast.unparse(c.func) == "isinstance" and ast.unparse(c.args[0]) == "self.default":
+                env[ast.unparse(c)] = "isInst"
+        return [to_lean(n.test, env), ast.unparse(st.value)]
+
+    ib = o.item("cast.parse_integer_body", conv_body("parse_integer"), [[], "int"])
+    db = o.item("cast.parse_double_body", conv_body("parse_double"), [[], "float"])
+    ad = o.item("cast.array_decode", array_decode, [["list", "tuple", "set"], "orjson.loads"])
+    dc = o.item("cast.column_default", default_cast, ["truthy", "self.type.parse(self.default)"])
     tn = o.item("cast.type_names", type_names, [p_[0] for p_ in PIN_PARSER])
     pmth = o.item("cast.parse_method", parse_method, ["isNone", "ORSO_TO_PYTHON_PARSER"])
     bf = o.item("cast.bool_fold", bool_fold, "upper")
@@ -232,7 +324,7 @@ def generate(o):
     pp = o.item("cast.ORSO_TO_PYTHON_PARSER", dmap("ORSO_TO_PYTHON_PARSER"), PIN_PARSER)
     dd = o.item("cast.decimal_defaults", dec_defaults, [38, 21])
     fa = o.item("cast.factory", factory, ["ROUND_HALF_EVEN", 3, 28])
-    fx = o.item("cast.expr.factory", factory_exprs, ["(min scale 28)", "(-safe_scale)", "(min scale 3)", "precision"])
+    fx = o.item("cast.expr.factory", factory_exprs, ["(min scale 28)", "(-safe_scale)", "(min scale 3)", "precision", "call"])
     lx = o.item("cast.expr.limit", limit_exprs, [["(length ≠ 0)", "length"], ["(length ≠ 0)", "length"]])
     pair = lambda p: "(%s, %s)" % (lean_str(p[0]), lean_str(p[1]))
     t = HEADER + "namespace Gen.Cast\n"
@@ -246,6 +338,9 @@ def generate(o):
     t += "/-- exponent of the quantisation factor `Decimal(10) ** ...` -/\ndef quantExp (safe_scale : Int) : Int := %s\n" % fx[1]
     t += "/-- number of zeros appended to all-digit text: `\".\" + \"0\" * ...` -/\ndef padCount (scale : Int) : Int := %s\n" % fx[2]
     t += "/-- `decimal.Context(prec=...)` -/\ndef contextPrec (precision : Int) : Int := %s\n" % fx[3]
+    t += ("/-- where the context object the factory rounds and quantises with is built: `call` = a new one in every call;\n"
+          "`module` = one module-level object whose `prec` is assigned per call (state shared by all casts of the process) -/\n"
+          "def contextScope : String := %s\n" % lean_str(fx[4] if len(fx) > 4 else "call"))
     for nm, (test, stop) in (("varchar", lx[0]), ("blob", lx[1])):
         t += "/-- parse_%s: the test guarding the slice -/\ndef %sLimitTest (length : Int) : Prop := %s\n" % ("varchar" if nm == "varchar" else "bytes", nm, test)
         t += "instance (length : Int) : Decidable (%sLimitTest length) := by unfold %sLimitTest; infer_instance\n" % (nm, nm)
@@ -258,5 +353,15 @@ def generate(o):
     t += "instance (a b : Prop) [Decidable a] [Decidable b] : Decidable (nullGuard a b) := by unfold nullGuard; infer_instance\n"
     t += "/-- …and the table it dispatches through with `self.value` -/\ndef dispatchTable : String := %s\n" % lean_str(pmth[1])
     t += "/-- parse_boolean: the case fold applied before the membership test -/\ndef boolFold : String := %s\n" % lean_str(bf)
+    t += ("/-- parse_integer / parse_double: conversions applied to the argument before the final one (test, function), and the final one -/\n"
+          "def integerPre : List (String × String) := %s\ndef integerConv : String := %s\n" % (lean_list(ib[0], pair), lean_str(ib[1])))
+    t += "def doublePre : List (String × String) := %s\ndef doubleConv : String := %s\n" % (lean_list(db[0], pair), lean_str(db[1]))
+    t += ("/-- parse_array: the classes iterated as they are, and the reader everything else is handed to -/\n"
+          "def arrayNative : List String := %s\ndef arrayLoader : String := %s\n" % (lean_list(ad[0], lean_str), lean_str(ad[1])))
+    t += ("/-- FlatColumn: the test under which the default is cast (`truthy`: bool(self.default); `isNone`: self.default is None;\n"
+          "`isInst`: any isinstance(self.default, …) test), and the cast expression -/\n"
+          "def defaultGuard (truthy isNone isInst : Prop) : Prop := %s\n" % dc[0])
+    t += "instance (a b c : Prop) [Decidable a] [Decidable b] [Decidable c] : Decidable (defaultGuard a b c) := by unfold defaultGuard; infer_instance\n"
+    t += "def defaultCast : String := %s\n" % lean_str(dc[1])
     t += "end Gen.Cast\n"
     o.files["Cast.lean"] = t
